@@ -225,14 +225,14 @@ func onePush(ctx context.Context, r *round, req []byte) ([]byte, string) {
 // ---- parent: generation, observation, judgement ----
 
 func runConcurrent(c *vf.Ctx, e *env) {
-	n := c.N(36, 300)
+	n := c.N(36, 180)
 	per := 150
 	for start := 0; start < n; start += per {
 		end := min(start+per, n)
 		runConcurrentBatch(c, e, start, end)
 	}
-	c.Floor("concurrent rounds judged", c.Counter("concurrent_rounds"), c.N(30, 250))
-	c.Floor("concurrent pushes answered", c.Counter("concurrent_pushes"), c.N(90, 750))
+	c.Floor("concurrent rounds judged", c.Counter("concurrent_rounds"), c.N(30, 150))
+	c.Floor("concurrent pushes answered", c.Counter("concurrent_pushes"), c.N(90, 450))
 }
 
 func runConcurrentBatch(c *vf.Ctx, e *env, from, to int) {
